@@ -150,6 +150,14 @@ CHECKS["C14"] = (
     "DESIGN.md section 5 C14",
 )
 
+CHECKS["C10"] = (
+    "exploration",
+    "history + executable model monitor: after every step of def/redef/alias/refer(:rename)/alter-var-root histories every spelling of every visible name (bare, alias, qualified, @#', resolve, ns-resolve, syntax-quote) is compiled and run under direct linking and var indirection with and without inlining, from both namespaces, and compared with a (ns, name) -> Var -> (root, last def) model; injectivity, privacy, local shadowing and thread-binding visibility are asserted at each step",
+    "Held (apart from the recorded munge non-injectivity) on ~560 (thorough 40000) random histories over 12 names with munging near-collisions in 2 namespaces plus 9 fixed scenarios, ~70000 compiled reads in quick. Exploration.",
+    "Trusted: the name/Var model; alter-var-root on a direct-linked, non-redef, non-dynamic Var may or may not be visible (both accepted, as documented).",
+    "DESIGN.md section 5 C10",
+)
+
 NOT_BUILT ="check not built yet in this session (design in DESIGN.md section 5); not claimed until its monitor exists and is quiet on the unchanged tree"
 
 
